@@ -92,10 +92,22 @@ class TK(Task):
     cs: Param[Optional[List[N]]]
     dc: Param[Optional[Dict[str, N]]]
     ld: Param[Optional[List[Dict[str, N]]]]
+    # tasks given to tasks (a task value must have been submitted before it can be assigned)
+    t: Param[Optional["TK"]]
+    ts: Param[Optional[List["TK"]]]
+    dt: Param[Optional[Dict[str, "TK"]]]
 
     def execute(self):
         pass
 
 
+class N2(N):
+    """a configuration that holds tasks (a bundle of upstream results)"""
+    t: Param[Optional[TK]]
+    ts: Param[Optional[List[TK]]]
+    dt: Param[Optional[Dict[str, TK]]]
+    lt: Param[Optional[List[List[TK]]]]
+
+
 ENUMS = [E1, E2]
-CLASSES = [A, A1, A2, B, T, T1, LWT, N, N1, LW, TK]
+CLASSES = [A, A1, A2, B, T, T1, LWT, N, N1, LW, TK, N2]
